@@ -958,6 +958,9 @@ def split_curve(obj, param, **kwargs):
     if not isinstance(obj, abstract.Curve):
         raise GeomdlException("Input shape must be an instance of abstract.Curve class")
 
+    # A parameter within the multiplicity tolerance of an existing knot denotes that knot (as in insert_knot)
+    param = _snap_to_knots(obj, [param])[0]
+
     if param == obj.domain[0] or param == obj.domain[1]:
         raise GeomdlException("Cannot split from the domain edge")
 
@@ -1122,6 +1125,9 @@ def split_surface_u(obj, param, **kwargs):
     if not isinstance(obj, abstract.Surface):
         raise GeomdlException("Input shape must be an instance of abstract.Surface class")
 
+    # A parameter within the multiplicity tolerance of an existing knot denotes that knot (as in insert_knot)
+    param = _snap_to_knots(obj, [param, None])[0]
+
     if param == obj.domain[0][0] or param == obj.domain[0][1]:
         raise GeomdlException("Cannot split from the u-domain edge")
 
@@ -1194,6 +1200,9 @@ def split_surface_v(obj, param, **kwargs):
     # Validate input
     if not isinstance(obj, abstract.Surface):
         raise GeomdlException("Input shape must be an instance of abstract.Surface class")
+
+    # A parameter within the multiplicity tolerance of an existing knot denotes that knot (as in insert_knot)
+    param = _snap_to_knots(obj, [None, param])[1]
 
     if param == obj.domain[1][0] or param == obj.domain[1][1]:
         raise GeomdlException("Cannot split from the v-domain edge")
